@@ -321,14 +321,105 @@ def rule_R4(body: str, log, where):
 
 
 def apply_rewrite(body, rule, frm, to, allocc, log, where):
+    """exact-text rewrite. A missing anchor is NOT fatal: the rule is skipped and logged (`missed`), the real text
+    goes to Verus unrewritten and either verifies, fails (violation) or is rejected by the front end (undecided).
+    Skipping a rewrite can never make a wrong function pass: what Verus then sees is the code itself."""
     cnt = body.count(frm)
     if cnt == 0:
-        raise AnchorLost(f"{where}: rewrite {rule} anchor not found: `{frm}`")
-    if cnt > 1 and not allocc:
-        raise AnchorLost(f"{where}: rewrite {rule} anchor ambiguous ({cnt}x): `{frm}`")
+        log.append({"rule": rule, "where": where, "before": frm, "after": to, "count": 0, "missed": True})
+        return body
     pad = "\n" * max(0, frm.count("\n") - to.count("\n"))
     log.append({"rule": rule, "where": where, "before": frm, "after": to, "count": cnt})
     return body.replace(frm, to + pad)
+
+
+CMP_WRAPPERS = {"<=": "f64_le", "<": "f64_lt", ">=": "f64_ge", ">": "f64_gt", "==": "f64_eq", "!=": "f64_ne"}
+
+
+def rewrite_f64_comparisons(body, log, where):
+    """R12, generic form: every binary comparison in the body becomes a call of the matching f64 wrapper.
+    Only enabled (directive `f64cmp: all`) for functions whose comparisons are all on f64 values."""
+    def operand_left(mask, end):
+        k = end - 1
+        depth = 0
+        while k >= 0:
+            ch = mask[k]
+            if ch in ")]":
+                depth += 1
+            elif ch in "([":
+                if depth == 0:
+                    break
+                depth -= 1
+            elif depth == 0:
+                if ch in "{};,":
+                    break
+                if ch in "&|" and k > 0 and mask[k - 1] == ch:
+                    break
+                if ch == "=" :
+                    break
+                if ch == "!" :
+                    break
+                m = re.search(r"\b(if|while|return|let|match|else|in)$", mask[:k + 1])
+                if m:
+                    k = k + 1
+                    break
+            k -= 1
+        return k + 1
+
+    def operand_right(mask, start):
+        k = start
+        depth = 0
+        n = len(mask)
+        while k < n:
+            ch = mask[k]
+            if ch in "([":
+                depth += 1
+            elif ch in ")]":
+                if depth == 0:
+                    break
+                depth -= 1
+            elif depth == 0:
+                if ch in "{};,?":
+                    break
+                if ch in "&|" and k + 1 < n and mask[k + 1] == ch:
+                    break
+            k += 1
+        return k
+
+    count = 0
+    pos = 0
+    while True:
+        mask = mask_rust(body)
+        m = None
+        for mm in re.finditer(r"<=|>=|==|!=|<|>", mask[pos:]):
+            a = pos + mm.start()
+            op = mm.group(0)
+            before = mask[a - 1] if a > 0 else " "
+            after = mask[a + len(op)] if a + len(op) < len(mask) else " "
+            if op in ("<", ">") and (before in "-=<>:" or after in "<>=" or before.isalnum() and op == "<" and after.isalpha() and mask[a - 1] != " "):
+                continue      # ->, =>, <<, >>, ::<, generic brackets written without spaces
+            if op == ">" and before == "-":
+                continue
+            m = (a, op)
+            break
+        if m is None:
+            break
+        a, op = m
+        l = operand_left(mask, a)
+        r = operand_right(mask, a + len(op))
+        lhs = body[l:a].strip()
+        rhs = body[a + len(op):r].strip()
+        if not lhs or not rhs:
+            pos = a + len(op)
+            continue
+        new = f"{CMP_WRAPPERS[op]}({lhs}, {rhs})"
+        pad = "\n" * body[l:r].count("\n")
+        lead = body[l:a][:len(body[l:a]) - len(body[l:a].lstrip())]
+        log.append({"rule": "R12", "where": where, "before": body[l:r].strip(), "after": new})
+        body = body[:l] + lead + new + pad + (" " if body[r:r + 1] in ("{", "&", "|") else "") + body[r:]
+        pos = l + len(lead) + len(new)
+        count += 1
+    return body
 
 
 def find_closures(mask):
@@ -433,9 +524,23 @@ def parse_template(path):
                 blocks.append(("text", cur, cur_start))
                 cur = []
             if s.startswith("//@item "):
-                rel, what = [x.strip() for x in s[len("//@item "):].split("|")]
+                segs = [x.strip() for x in s[len("//@item "):].split(" | ")]
+                rel, what = segs[0], segs[1]
                 kind, name = what.split()
-                blocks.append(("item", {"file": rel, "kind": kind, "name": name, "tline": i + 1}))
+                item = {"file": rel, "kind": kind, "name": name, "tline": i + 1, "rewrites": []}
+                # optional: `| rewrite: <rule> | <from> | <to>` (exact text inside the item, logged like fn rewrites)
+                k = 2
+                while k < len(segs):
+                    if segs[k].startswith("derive:"):
+                        item["derive"] = [d.strip() for d in segs[k][len("derive:"):].split(",")]
+                        k += 1
+                        continue
+                    if segs[k].startswith("rewrite:") and k + 2 < len(segs):
+                        item["rewrites"].append((segs[k][len("rewrite:"):].strip(), segs[k + 1], segs[k + 2]))
+                        k += 3
+                    else:
+                        k += 1
+                blocks.append(("item", item))
                 i += 1
                 cur_start = i + 1
                 continue
@@ -503,6 +608,8 @@ def parse_template(path):
                     spec.setdefault("closures", []).append({"n": int(parts[0]), "params": parts[1], "ret": parts[2],
                                                             "ensures": parts[3] if len(parts) > 3 else "-",
                                                             "let": parts[4] if len(parts) > 4 else "-"})
+                elif key == "f64cmp":
+                    spec["f64cmp"] = True
                 elif key == "prologue":
                     spec["prologue"] = spec.get("prologue", "") + " " + val
                 elif key == "sig":
@@ -588,7 +695,17 @@ def generate(unit, template_path, canary=False):
             text = re.sub(r"^pub\s*\([^)]*\)", "pub", text, count=1)
             if spec["kind"] in ("struct", "enum", "type") and not text.startswith("pub"):
                 text = "pub " + text
+            if spec.get("derive"):
+                # R0 refinement: a derive the template asks for is kept IF the source item really derives it
+                pre = src.text[max(0, a - 400):a]
+                md = re.findall(r"#\[derive\(([^)]*)\)\]", pre[pre.rfind("}") + 1:] if "}" in pre else pre)
+                have = {d.strip() for grp in md for d in grp.split(",")}
+                keep = [d for d in spec["derive"] if d in have]
+                if keep:
+                    text = "#[derive(" + ", ".join(keep) + ")] " + text
             g.rewrites.append({"rule": "R0", "where": f"{spec['file']}:{line_of(src.text, a)}", "before": "attributes/doc comments", "after": "(dropped)"})
+            for rule, frm, to in spec.get("rewrites", []):
+                text = apply_rewrite(text, rule, frm, to, True, g.rewrites, f"{spec['file']}:{line_of(src.text, a)}::{spec['name']}")
             g.emit_mapped(text, spec["file"], line_of(src.text, a))
         elif b[0] == "lemma":
             spec = b[1]
@@ -652,6 +769,8 @@ def generate(unit, template_path, canary=False):
             body = rule_R4(body, g.rewrites, where)
             for rule, frm, to, allocc in spec["rewrites"]:
                 body = apply_rewrite(body, rule, frm, to, allocc, g.rewrites, where)
+            if spec.get("f64cmp"):
+                body = rewrite_f64_comparisons(body, g.rewrites, where)
             for rule, frm, to, optional in spec.get("rewrites_re", []):
                 new_body, cnt = re.subn(frm, to, body)
                 if cnt == 0 and optional:
@@ -677,7 +796,10 @@ def generate(unit, template_path, canary=False):
             for pos, anchor, text in spec["inserts"]:
                 cnt = body.count(anchor)
                 if cnt != 1:
-                    raise AnchorLost(f"{where}: insert anchor matched {cnt}x: `{anchor}`")
+                    # a proof hint that cannot be placed is skipped (soft anchor): without it the obligation may fail,
+                    # it can never pass wrongly
+                    g.rewrites.append({"rule": "R10", "where": where, "before": anchor, "after": f"{pos}: {text}", "missed": True, "count": cnt})
+                    continue
                 g.rewrites.append({"rule": "R10", "where": where, "before": anchor, "after": f"{pos}: {text}"})
                 if pos == "before":
                     body = body.replace(anchor, text + " " + anchor)
